@@ -16,6 +16,8 @@ Games ==
       [] Family = "perm" -> PermFamily
       [] Family = "tiny" -> DescribeAll("tiny", Pick(K, TinyGames) \cup Pick(K, TinyChains))
       [] Family = "nonabs" -> DescribeAll("nonabs", Pick(K, NonAbsGames))
+      [] Family = "diag" -> DescribeAll("diag", Pick(K, DiagGames))
+      [] Family = "slow" -> DescribeAll("slow", Pick(K, SlowGames))
       [] Family = "bigrew" -> DescribeAll("bigrew", Pick(K, BigRewGames))
       [] Family = "ties" -> DescribeAll("ties", Pick(K, TieGames))
       [] Family = "tiesall" -> DescribeAll("ties", TieGames)
